@@ -121,7 +121,27 @@ func (r *reRun) try(pc, pos int) bool {
 				}
 			}
 			if op&(syntax.EmptyWordBoundary|syntax.EmptyNoWordBoundary) != 0 {
-				unsupported("regexp word-boundary assertion on symbolic input")
+				isWord := func(i int) bool {
+					if i < 0 || i >= len(r.s.S) {
+						return false
+					}
+					b := r.s.at(i)
+					if b.T == nil {
+						c := byte(b.V)
+						return c == '_' || (c >= '0' && c <= '9') || (c >= 'a' && c <= 'z') || (c >= 'A' && c <= 'Z')
+					}
+					in := func(lo, hi byte) *Term {
+						return tAnd(tBin("bvuge", 0, b.T, bvConst(uint64(lo), 8)), tBin("bvule", 0, b.T, bvConst(uint64(hi), 8)))
+					}
+					return r.m.branch(mkBool(tOr(tEq(b.T, bvConst('_', 8)), in('0', '9'), in('a', 'z'), in('A', 'Z'))))
+				}
+				boundary := isWord(pos-1) != isWord(pos)
+				if op&syntax.EmptyWordBoundary != 0 && !boundary {
+					ok = false
+				}
+				if op&syntax.EmptyNoWordBoundary != 0 && boundary {
+					ok = false
+				}
 			}
 			if !ok {
 				return false
